@@ -38,7 +38,7 @@ def _work(idx):
     p, V, opts = _FAMILY[idx]
     out = {"id": p["id"], "witnesses": [], "lost": [], "ind_bad": [], "inconclusive": 0,
            "traces": [], "checked_pins": 0, "checked_inds": 0, "errors": [], "default": None,
-           "replayed": 0, "replay_mismatch": []}
+           "replayed": 0, "replay_mismatch": [], "buf_bad": [], "checked_bufs": 0, "outside_window": 0}
     try:
         b, s = A.initialized_solver(p, **opts.get("solver_kw", {}))
     except Exception as ex:  # the library refused a well-formed problem
@@ -84,20 +84,27 @@ def _work(idx):
             lost, inc, chk = A.completeness(p, b, s, V)
             out["inconclusive"] += inc
             out["checked_pins"] = chk
-            out["lost"] = lost[:opts.get("max_lost", 6)]
+            out["lost"] = lost[:opts.get("max_lost", 500)]
             out["n_lost"] = len(lost)
         if opts.get("indicators", True) and p["inds"]:
             bad, inc, chk = A.indicator_identity(p, b, s, V)
             out["inconclusive"] += inc
             out["checked_inds"] = chk
             out["ind_bad"] = [{"v": v, "values": vals} for v, vals in bad[:6]]
+        if opts.get("buffers", True) and p["buffers"]:
+            bad, inc, chk = A.buffer_identity(p, b, s, V)
+            out["inconclusive"] += inc
+            out["checked_bufs"] = chk
+            out["buf_bad"] = bad[:6]
         # the solution the library returns by default
         if opts.get("default_solve", True):
             with B.silence():
                 sol = s.solve()
             must = [v for v in V.values() if not v.get("unspec")]
             out["default"] = {"solved": bool(sol), "V": len(V), "V_must": len(must)}
-            if sol:
+            if sol and not p["user_horizon"] and max([t.end for t in sol.tasks.values()] + [0]) > p["H"]:
+                out["outside_window"] += 1  # no user horizon: the library may go beyond the bounded window
+            elif sol:
                 sv = PJ.from_solution(p, sol)
                 out["traces"].append({"kind": "default", "trace": PJ.to_trace(p, idx + 1, sv, sol),
                                       "solution": json.loads(sol.to_json(compact=True))})
